@@ -55,9 +55,9 @@ CLAIMED = {
  "C15": dict(technique="property-based testing with Graphviz as acceptance oracle: generated hostile documents x 80 option combinations, structure parsed from `dot -Tdot_json` and compared with a census computed from the unified content",
              text="Documents whose identifiers, labels and values are drawn from a markup-hostile alphabet are rendered with prov_to_dot under sampled option combinations; Graphviz must accept the text, and the parsed structure must hold one labelled node per element record in its bundle's cluster, a node for every referenced name, exactly one correctly directed path (direct or through one point node) per relation with two endpoints and none without a relation, and annotation rows that are exactly attributes of the records.",
              note="Trusted: Graphviz 2.43 (parser and JSON output), unified() (C08). Layout, styles, node ids, the cluster of merely referenced names and relations lacking an endpoint are not asserted.", ref="4 C15"),
- "C11": dict(technique="property-based testing with a specification-driven generator of foreign PROV-JSON / PROV-XML dialects (own writers) and structured single-point mutations of the 398+45 corpus files; differential oracle against independent readers plus re-serialisation stability",
+ "C11": dict(technique="property-based testing with a specification-driven generator of foreign PROV-JSON / PROV-XML dialects (own writers), structured single-point mutations of the 398+45 corpus files, and (thorough) coverage-guided fuzzing of mutation sequences with atheris; differential oracle against independent readers plus re-serialisation stability",
              text="Abstract content is rendered by this project's own writers in random dialects the library never emits, and corpus files are mutated at one point on their parsed structure; the library must refuse with a library error or load a document whose strict content equals the generator's content / the independent reader's content of the same text, and which is stable under rewrite in the same format and across formats. A text holding two values for a single-valued formal argument must be refused, never reduced.",
-             note="Trusted: pbt/writers.py, pbt/readers/*. A run in which more than 20% of the specification-driven texts are refused ends inconclusive (exit 2), not green. The coverage-guided (atheris) campaign of the design is not built; see DESIGN.md.", ref="4 C11"),
+             note="Trusted: pbt/writers.py, pbt/readers/*. A run in which more than 20% of the specification-driven texts are refused ends inconclusive (exit 2), not green. The thorough tier adds a coverage-guided atheris/libFuzzer campaign over sequences of corpus mutations (skipped with a counter if atheris is not importable).", ref="4 C11"),
 }
 PENDING_REASON = "check not built yet in this round (design in DESIGN.md section 4); not claimed until the check exists and is quiet on the unchanged tree"
 checks = []
